@@ -113,6 +113,7 @@ struct Outcome
 {
     std::string output;               // everything the engine printed
     std::vector<long long> visits;    // node visits per go
+    std::vector<long long> think_ms;  // virtual milliseconds between `go` and the end of its search thread
     bool horizon_hit = false;
     int exit_status = 0;              // child status (signal / sanitizer abort)
     bool crashed = false;
@@ -129,7 +130,8 @@ struct ChildState
     bool searching = false;
     int go_index = -1, n_go = 0, line_index = -1;
     long long visits = 0;
-    std::vector<long long> all_visits;
+    std::vector<long long> all_visits, all_think;
+    long long t_go = 0;
     bool horizon_hit = false;
     Uci* uci = nullptr;
     std::vector<std::pair<uint64_t, std::string>> keys;
@@ -160,6 +162,7 @@ inline void hook(int point, void* search, const void* a, const void* b)
             c.searching = true;
             c.go_index++;
             c.visits = 0;
+            c.t_go = vclock::now_ns.load();
         }
         break;
     }
@@ -192,6 +195,7 @@ inline void hook(int point, void* search, const void* a, const void* b)
     {
         std::unique_lock<std::mutex> lk(c.m);
         c.all_visits.push_back(c.visits);
+        c.all_think.push_back((vclock::now_ns.load() - c.t_go) / 1000000LL);
         c.searching = false;
         c.cv.notify_all();
         break;
@@ -254,6 +258,7 @@ inline Outcome run(Uci& uci, const Spec& spec)
         std::string res = outbuf.str();
         res += "#END\n";
         for (long long v : cs.all_visits) res += "#visits " + std::to_string(v) + "\n";
+        for (long long v : cs.all_think) res += "#think " + std::to_string(v) + "\n";
         if (cs.horizon_hit) res += "#horizon\n";
         for (auto& k : cs.keys) res += "#key " + std::to_string(k.first) + " " + k.second + "\n";
         write_all(pfd[1], res);
@@ -290,6 +295,7 @@ inline Outcome run(Uci& uci, const Spec& spec)
     while (std::getline(meta, l))
     {
         if (l.rfind("#visits ", 0) == 0) o.visits.push_back(atoll(l.c_str() + 8));
+        else if (l.rfind("#think ", 0) == 0) o.think_ms.push_back(atoll(l.c_str() + 7));
         else if (l == "#horizon") o.horizon_hit = true;
         else if (l.rfind("#key ", 0) == 0)
         {
@@ -350,6 +356,7 @@ inline Outcome run_inproc(Uci& uci, const Spec& spec)
     Outcome o;
     o.output = outbuf.str();
     o.visits = cs.all_visits;
+    o.think_ms = cs.all_think;
     o.horizon_hit = cs.horizon_hit;
     o.keys = cs.keys;
     CS = nullptr;
